@@ -238,16 +238,27 @@ def loadInl (files : Files) (name : Name) (cls : Kind) (c : Cache) : Res (List N
 
 /-! ## rendering (`_flatten` → `_match` → `_include` as one big step) -/
 
-/-- the match templates that still apply: indices `lo ≤ i`, `i < hi` (`start` / `end` of `_match`) -/
+/-- the match templates that still apply: indices `lo ≤ i`, `i < hi` (`start` / `end` of `_match`);
+`nomt`: the pipeline the events run through has no match filter at all (a text template's:
+`[_flatten, _include]`) -/
 structure Rng where
   lo : Nat
   hi : Option Nat
+  nomt : Bool
   deriving DecidableEq, Repr
 
-def Rng.full : Rng := ⟨0, none⟩
+def Rng.full : Rng := ⟨0, none, false⟩
+
+/-- the window at the start of a template's own pipeline -/
+def Rng.ofKind : Kind → Rng
+  | .markup => .full
+  | .text => ⟨0, none, true⟩
+
+/-- the window a fallback runs under: `self.filters` of the template performing the include, afresh -/
+def Rng.fresh (r : Rng) : Rng := ⟨0, none, r.nomt⟩
 
 def Rng.contains (r : Rng) (i : Nat) : Bool :=
-  decide (r.lo ≤ i) && (match r.hi with | none => true | some h => decide (i < h))
+  !r.nomt && decide (r.lo ≤ i) && (match r.hi with | none => true | some h => decide (i < h))
 
 /-- the render context (`Context`: frames, macros in the bottom frame, `_match_templates`) plus,
 in inline mode, the loader's prepared templates -/
@@ -377,7 +388,7 @@ def renderN (inl : Mode) (files : Files) (J : RJ) (rng : Rng) : Node → St → 
     | some (idx, mb) =>
       -- the matched element is consumed: its content is evaluated (buffered) under the match
       -- templates up to this one, then the template body replaces it, open to the later ones
-      (renderL inl files J ⟨rng.lo, some (idx + 1)⟩ body st).bind fun r => J ⟨idx + 1, none⟩ mb r.2
+      (renderL inl files J ⟨rng.lo, some (idx + 1), false⟩ body st).bind fun r => J ⟨idx + 1, none, false⟩ mb r.2
   | .cond c body, st =>
     (evalCond st c).bind fun b => if b then renderL inl files J rng body st else .ok ([], st)
   | .loop x xs body, st =>
@@ -398,10 +409,10 @@ def renderN (inl : Mode) (files : Files) (J : RJ) (rng : Rng) : Node → St → 
       | none => .err .unmodelled
       | some name =>
         match loadT inl files name cls st with
-        | .ok (body, st1) => J .full body st1       -- tmpl.generate(ctxt): the target's own filters
+        | .ok (body, st1) => J (.ofKind cls) body st1       -- tmpl.generate(ctxt): the target's own filters
         | .err .notFound =>
           -- only the load is inside the try (fix e3e02f6); the fallback runs through self.filters
-          if hasFb then renderL inl files J .full fb st else .err .notFound
+          if hasFb then renderL inl files J rng.fresh fb st else .err .notFound
         | .err e => .err e
         | .fuel => .fuel
   | .inlined body, st => J rng body st
@@ -424,21 +435,21 @@ def St.init (data : List (Name × Value)) : St := ⟨[], data, [], [], []⟩
 def renderRuntime (files : Files) (entry : Name) (kind : Kind) (data : List (Name × Value)) (fuel : Nat) :
     Res (List Ev) :=
   (loadT .runtime files entry kind (St.init data)).bind fun r =>
-    (renderL .runtime files (render .runtime files fuel) .full r.1 r.2).map (·.1)
+    (renderL .runtime files (render .runtime files fuel) (.ofKind kind) r.1 r.2).map (·.1)
 
 /-- the same with `auto_reload=False`: the entry is prepared (static includes inlined) first;
 prepared streams keep the cost markers -/
 def renderInline (files : Files) (entry : Name) (kind : Kind) (data : List (Name × Value)) (fuel : Nat) :
     Res (List Ev) :=
   (loadT .inlineM files entry kind (St.init data)).bind fun r =>
-    (renderL .inlineM files (render .inlineM files fuel) .full r.1 r.2).map (·.1)
+    (renderL .inlineM files (render .inlineM files fuel) (.ofKind kind) r.1 r.2).map (·.1)
 
 /-- the same as the code does it: no cost markers in prepared streams, so inlined templates are
 entered without spending fuel (inline mode needs less Python stack than run-time mode) -/
 def renderInlineReal (files : Files) (entry : Name) (kind : Kind) (data : List (Name × Value)) (fuel : Nat) :
     Res (List Ev) :=
   (loadT .inlineU files entry kind (St.init data)).bind fun r =>
-    (renderL .inlineU files (render .inlineU files fuel) .full r.1 r.2).map (·.1)
+    (renderL .inlineU files (render .inlineU files fuel) (.ofKind kind) r.1 r.2).map (·.1)
 
 /-! ## several renders through one loader -/
 
@@ -449,7 +460,7 @@ abbrev Req := Name × Kind × List (Name × Value)
 afterwards (a failed render is taken to leave the cache alone) -/
 def renderOn (m : Mode) (files : Files) (fuel : Nat) (c : Cache) (q : Req) : Res (List Ev) × Cache :=
   match (loadT m files q.1 q.2.1 { St.init q.2.2 with cache := c }).bind fun r =>
-      renderL m files (render m files fuel) .full r.1 r.2 with
+      renderL m files (render m files fuel) (.ofKind q.2.1) r.1 r.2 with
   | .ok r => (.ok r.1, r.2.cache)
   | .err e => (.err e, c)
   | .fuel => (.fuel, c)
@@ -528,10 +539,28 @@ def clsOkL (files : Files) : List Node → Bool
 termination_by structural l => l
 end
 
+mutual
+/-- what a text template may contain for the theorem: no macro call (its pipeline has no match
+filter: elements produced by a macro would escape the includer's match templates when the text
+template is included at run time, not when it is inlined — finding C11-match-range-text), no
+elements or match templates (no syntax for them), includes of text templates only -/
+def textualN : Node → Bool
+  | .text _ | .var _ => true
+  | .call _ | .elem _ _ | .matchT _ _ => false
+  | .cond _ b | .loop _ _ b | .defn _ b | .inlined b => textualL b
+  | .include _ cls _ fb _ => decide (cls = .text) && textualL fb
+termination_by structural n => n
+def textualL : List Node → Bool
+  | [] => true
+  | n :: ns => textualN n && textualL ns
+termination_by structural l => l
+end
+
 def fileOk (T : List Name) (files : Files) (f : File) : Bool :=
   match f.body with
   | none => false            -- ill-formed templates are outside the property's quantifier
-  | some b => tagsOkL T b && zoneFreeL T false b && clsOkL files b
+  | some b => tagsOkL T b && zoneFreeL T false b && clsOkL files b &&
+      (match f.kind with | .text => textualL b | .markup => true)
 
 def inH (T : List Name) (files : Files) : Bool :=
   files.all fun d => d.all fun e => fileOk T files e.2
